@@ -6,17 +6,13 @@ Import ListNotations.
 Check C12_conv_table_ok : forall c, assoc c conv_table = spec_conv c.
 Check C12_flag_table_ok : forall c, assoc c flag_table = spec_flag c.
 Check C12_lenmod_table_ok : forall c, memN c lenmod_chars = is_lenmod c.
-Check C12_parse_refines : forall s,
-  impl_parse_codes s <> Err EPanic -> known_lenmod s = false ->
-  impl_parse_codes s = spec_parse_codes s.
-Check C12_parse_width_overflow_refuted :
-  exists s es, impl_parse_codes s = Err EPanic /\ spec_parse_codes s = Ok es.
-Check C12_width_panic_only_if_big : forall s,
-  impl_field_width s = Err EPanic ->
-  exists n rest, spec_field_width s = Ok (WFixed n, rest) /\ (u16_max < n)%N \/
-                 spec_field_width s = Err ETrunc /\ (u16_max < decimal (fst (span is_digit s)))%N.
-Check C12_parse_lenmod_refuted :
-  exists s es c, impl_parse_codes s = Ok es /\ spec_parse_codes s = Err (EUnrec c) /\ known_lenmod s = true.
+Check C12_parse_refines : forall s, impl_parse_codes s = spec_parse_codes s.
+Check C12_width_limit_examples :
+  impl_parse_codes [37; 54; 53; 53; 51; 54; 100]%N = Err ETooLarge /\
+  impl_parse_codes [37; 54; 53; 53; 51; 53; 100]%N =
+    Ok [ECode {| c_mkey := []; c_flags := no_flags; c_width := WFixed 65535; c_prec := None;
+                 c_type := GDecimal; c_caps := false |}] /\
+  impl_parse_codes [37; 108; 108; 100]%N = Err (EUnrec 108).
 Check C12_literal_copied : forall pc so fc s,
   ~ In ch_pct s ->
   std_format (parse_codes pc) so fc s (TArr []) = Ok s /\
@@ -40,25 +36,20 @@ Check C12_int_roundtrip : forall radix z,
 Check C12_int_format_refines : forall v c w p,
   wf_value v -> is_int_conv (c_type c) = true -> known_int_class v c = false ->
   impl_format_tmp v c w p = spec_format_tmp v c w p.
-Check C12_hex_alt_zero_refuted :
-  impl_render_hex false 0 0 0 true false false false = [48%N] /\
-  spec_render_hex 0 0 0 false false true false = [48%N; 120%N; 48%N].
 Check C12_i64_saturation_refuted :
   impl_render_decimal false (2 ^ 63) 0 0 false false <> spec_render_int false (2 ^ 63) 0 0 false false 10 [].
-Check C12_hex_negative_fraction_refuted :
-  exists v c, wf_value v /\ known_int_class v c = true /\
-    impl_format_tmp v c 0 None = Ok [45; 49]%N /\ spec_format_tmp v c 0 None = Ok [45; 50]%N.
+Check C12_char_format_refines : forall v c w p,
+  wf_value v -> c_type c = GChar -> impl_format_tmp v c w p = spec_format_tmp v c w p.
 Check C12_width_exact : forall left w tmp,
   lenN (spec_pad left w tmp) = N.max w (lenN tmp) /\
   exists n, spec_pad left w tmp = if left then tmp ++ repeat ch_space n else repeat ch_space n ++ tmp.
-Check C12_pad_refines_ascii : forall left w tmp,
-  Forall (fun c => (c < 128)%N) tmp -> (lenN tmp < 65536)%N ->
-  impl_pad left w tmp = spec_pad left w tmp.
-Check C12_width_bytes_refuted :
-  lenN (impl_pad false 5 [233%N]) = 4%N /\ lenN (spec_pad false 5 [233%N]) = 5%N.
-Check C12_g_underflow_refuted :
-  impl_render_shorter 1 2 0 0 false false false false = Err EPanic /\
-  spec_render_shorter 1 2 0 0 false false false false = [49]%N.
+Check C12_pad_refines : forall left w tmp,
+  (w <= u16_max)%N -> impl_pad left w tmp = spec_pad left w tmp.
+Check C12_g_no_underflow : forall num den padding fpprec b s alt caps,
+  (fpprec <= 308)%N -> exists o, impl_render_shorter num den padding fpprec b s alt caps = Ok o.
+Check C12_float_pow_overflow_refuted :
+  impl_render_float 1 1 0 309 false false false true = Err EPanic /\
+  exists o, impl_render_float 1 1 0 308 false false false true = Ok o.
 Check C12_obj_mode_rules : forall fc c fs,
   (c_width c = WStar \/ c_prec c = Some WStar -> step_obj fc c fs = Err EStarObj) /\
   (forall w, c_width c = WFixed w -> c_prec c <> Some WStar -> c_type c <> GPercent ->
@@ -71,9 +62,13 @@ Check C12_obj_mode_rules : forall fc c fs,
 (** definitions pinned by evaluation *)
 Check eq_refl : show (impl_std_format [37; 48; 53; 100]%N (TOne (VNum (-3) 1 []))) = (0%N, [45; 48; 48; 48; 51]%N).
 Check eq_refl : show (spec_std_format [37; 35; 120]%N (TOne (VNum 0 1 []))) = (0%N, [48; 120; 48]%N).
-Check eq_refl : show (impl_std_format [37; 35; 120]%N (TOne (VNum 0 1 []))) = (0%N, [48]%N).
+Check eq_refl : show (impl_std_format [37; 35; 120]%N (TOne (VNum 0 1 []))) = (0%N, [48; 120; 48]%N).
+Check eq_refl : show (impl_std_format [37; 120]%N (TOne (VNum (-3) 2 []))) = (0%N, [45; 50]%N).
+Check eq_refl : show (impl_std_format [37; 53; 115]%N (TOne (VStr [233%N]))) = (0%N, [32; 32; 32; 32; 233]%N).
+Check eq_refl : show (impl_std_format [37; 99]%N (TOne (VNum (-1) 1 []))) = (9%N, []).
 Check eq_refl : show (spec_std_format [37; 46; 51; 101]%N (TOne (VNum 1 2 []))) = (0%N, [53; 46; 48; 48; 48; 101; 45; 48; 49]%N).
 Check eq_refl : show (impl_std_format [37]%N (TArr [])) = (1%N, []).
 Check eq_refl : show (spec_std_format [37; 115; 32; 37; 115]%N (TArr [VStr [97%N]])) = (3%N, []).
 Check eq_refl : show (spec_std_format [37; 115]%N (TArr [VStr [97%N]; VStr [98%N]])) = (4%N, []).
-Check eq_refl : run_parse [37; 57; 57; 57; 57; 57; 100]%N = (10%N, 0%N, false).
+Check eq_refl : run_parse [37; 57; 57; 57; 57; 57; 100]%N = (12%N, 12%N).
+Check eq_refl : show (impl_std_format [37; 100]%N (TOne (VNum (10 ^ 30) 1 []))) = (0%N, [57; 50; 50; 51; 51; 55; 50; 48; 51; 54; 56; 53; 52; 55; 55; 53; 56; 48; 55]%N).
